@@ -14,12 +14,15 @@ struct Ctl {
     int readMode = 0;        // 0 none, 1 EIO once `readAt` bytes were delivered, 2 short reads of at most `gran` bytes
     long readAt = 0;
     long gran = 1;
+    long writeFailAt = -1;   // >=0: writes on the watched file fail with ENOSPC once this many bytes were written (full disk)
+    bool noSeek = false;     // the watched file behaves like a pipe / FIFO: lseek fails with ESPIPE (reads stay sequential)
     int eintrEvery = 0;      // >0 (with readMode 2): every n-th read call is interrupted first (-1/EINTR), which libstdc++ must retry
     long readPos = 0;        // bytes delivered so far on watchFd
     void (*yieldHook)() = nullptr; // C18: called before every write/writev of the library
     // counters (never reset by the layer)
     long opens = 0, openFails = 0, reads = 0, readFaults = 0, shortReads = 0, eintrs = 0, writes = 0, writevs = 0, bytesWritten = 0;
-    long readCalls = 0;
+    long readCalls = 0, seeksRefused = 0, writeFaults = 0;
+    unsigned long bufferSum = 0; // the wrapped write reads the caller's buffer like a kernel would (visible to ASan / valgrind)
     // write log of the watched fd: end offset of each write syscall
     static const int LOGN = 256;
     long writeEnds[LOGN];
@@ -39,6 +42,8 @@ inline void disarm() {
     c.readAt = 0;
     c.gran = 1;
     c.eintrEvery = 0;
+    c.noSeek = false;
+    c.writeFailAt = -1;
     c.readCalls = 0;
     c.readPos = 0;
     c.nWriteEnds = 0;
